@@ -2426,6 +2426,142 @@ def c14_checks(repo: Repo, tier: str, res: CheckResult, seed: int) -> None:
     res.count("SOUND.type-pairs", n, 40)
 
 
+
+# ================================================================================================ C18: enum / flag tables (tier G)
+def _et_dicts(cells: dict) -> List[List[list]]:
+    return [v["d"] for v in cells.values() if isinstance(v, dict) and "d" in v]
+
+
+def _et_key(enc: dict) -> str:
+    """a comparable spelling of an encoded value: members by Class.name, everything else type-exact"""
+    if "m" in enc:
+        return "member:" + enc["m"]
+    for k in ("s", "i", "b"):
+        if k in enc:
+            return f"{k}:{enc[k]!r}"
+    if "none" in enc:
+        return "none"
+    return "other:" + json.dumps(enc, sort_keys=True)
+
+
+def c18_checks(repo: Repo, tier: str, res: CheckResult, seed: int) -> None:
+    """The tables captured by the closures the five enum / flag factories hand out (read from the closure cells after the
+    creation stage; nothing is called) against the documented representation: the member -> name table of the dumper, the
+    name -> member table of the loader (its exact inverse), the cases the flag list codec knows, the exact value tables, the
+    flag mask and the documented refusals."""
+    EPF = "adaptix/_internal/morphing/enum_provider.py"
+    recs = [r for r in run_child(repo, tier, seed, "enumtables") if r.get("kind") == "enumtable"]
+    n = 0
+    n_tables = 0
+
+    def report(rule: str, qual: str, construct: str, msg: str) -> None:
+        res.add(Finding("C18", rule, EPF, qual, construct, msg, 0))
+
+    for r in recs:
+        n += 1
+        cls = r["cls"]
+        members = r["members"]
+        canon = [m for m in members if m[0] == m[1]]
+        ident = f"{r['provider']}:{cls}:{r['cfg']}" + (f":compound={r['allow_compound']}" if "allow_compound" in r else "")
+        res.evaluated("G:enumtable:" + ident, True)
+        oracle = r.get("oracle") or {}
+
+        def expected(name: str) -> str:
+            if name in oracle.get("by_member", {}):
+                return oracle["by_member"][name]
+            if name in oracle.get("by_name", {}):
+                return oracle["by_name"][name]
+            return _style_oracle(name, oracle.get("style"))
+
+        sides = {k: r.get(k) for k in ("loader", "dumper") if k in r}
+        if r["provider"] == "flag_exact":
+            ints = [m[3] for m in members]
+            mask = 0
+            for v in ints:
+                mask |= v
+            must_refuse = mask < 0 or mask != 2 ** mask.bit_length() - 1
+            lo = sides["loader"]
+            if "error" in lo:
+                report("TABLE.creation-failed", "FlagByExactValueProvider._make_loader", f"{cls}: {lo['error'][:80]}",
+                       f"creating the exact-value loader of flag {cls} {[(m[0], m[3]) for m in members]} raises {lo['error']}")
+            elif must_refuse != ("refused" in lo):
+                report("TABLE.flag-refusal", "FlagByExactValueProvider._make_loader", f"{cls}: refused={'refused' in lo}",
+                       f"flag {cls} with values {[m[3] for m in members]} (mask {mask}): the documentation excludes exactly the flags "
+                       f"with negative values or skipped bits; creation {'was refused' if 'refused' in lo else 'succeeded'}")
+            elif "fn" in lo and "cells" in lo["fn"]:
+                int_cells = [v["i"] for v in lo["fn"]["cells"].values() if isinstance(v, dict) and "i" in v]
+                if int_cells:
+                    n_tables += 1
+                    if mask not in int_cells:
+                        report("TABLE.flag-mask", "FlagByExactValueProvider._make_loader", f"{cls}: {sorted(int_cells)} vs {mask}",
+                               f"the loader of flag {cls} captured the bound(s) {sorted(int_cells)}; the union of all members is {mask}: "
+                               "values up to the mask are representations of member combinations")
+            continue
+        for side, out in sides.items():
+            qual = {"name": "EnumNameProvider", "exact": "EnumExactValueProvider", "flag_list": "FlagByListProvider"}[r["provider"]] \
+                + "._make_" + side
+            if "error" in out or "refused" in out:
+                report("TABLE.creation-failed", qual, f"{ident}: {(out.get('error') or out.get('refused'))[:80]}",
+                       f"creating the {side} for {ident} (members {[m[0] for m in members]}) fails: "
+                       f"{out.get('error') or out.get('refused')}; the documentation does not exclude this class")
+                continue
+            cells = out["fn"].get("cells")
+            if cells is None:
+                continue
+            dicts = _et_dicts(cells)
+            if r["provider"] in ("name", "flag_list"):
+                if r["provider"] == "name":
+                    cases = canon
+                elif r["allow_compound"]:
+                    cases = canon
+                else:
+                    cases = [m for m in canon if m[3] is not None and m[3] > 0 and m[3] & (m[3] - 1) == 0]
+                want = {f"member:{cls}.{m[0]}": expected(m[0]) for m in cases}
+                if len(set(want.values())) != len(want):
+                    continue        # colliding names: the known finding of tier S, not decided here
+                if side == "dumper":
+                    tabs = [d for d in dicts if d and all("m" in k and "s" in v for k, v in d)]
+                    got_list = [{_et_key(k): v["s"] for k, v in d} for d in tabs]
+                else:
+                    tabs = [d for d in dicts if d and all("s" in k and "m" in v for k, v in d)]
+                    got_list = [{_et_key(v): k["s"] for k, v in d} for d in tabs]
+                    for d in tabs:
+                        if len({k["s"] for k, _ in d}) != len({_et_key(v) for _, v in d}):
+                            report("TABLE.loader-not-inverse", qual, ident,
+                                   f"{ident}: the loader table maps two names to one member: {[(k['s'], v['m']) for k, v in d]}")
+                for got in got_list:
+                    n_tables += 1
+                    if got != want:
+                        diff = sorted(set(got.items()) ^ set(want.items()), key=str)
+                        report("TABLE.name-table", qual, f"{ident}: {diff[:4]}",
+                               f"{ident}: the {side} captured the table {got}, the documented representation (map entry of the member, "
+                               f"else map entry of its name, else the name in the name style; "
+                               + ("every member" if r["provider"] == "name" or r.get("allow_compound") else "the single-bit members")
+                               + f") is {want}")
+                if r["provider"] == "flag_list":
+                    zeros = [v for v in cells.values() if isinstance(v, dict) and "m" in v and v.get("cls") == cls]
+                    for z in zeros:
+                        if z.get("val") != "0":
+                            report("TABLE.zero-case", qual, f"{ident}: {z['m']}",
+                                   f"{ident}: the flag the {side} starts from is {z['m']} = {z.get('val')}, not the empty flag")
+            elif r["provider"] == "exact":
+                want_m2v = {f"member:{cls}.{m[0]}": m[2] for m in canon}
+                for d in dicts:
+                    if side == "dumper" and d and all("m" in k for k, _ in d):
+                        n_tables += 1
+                        got = {_et_key(k): v.get("r") for k, v in d}
+                        if got != want_m2v:
+                            report("TABLE.exact-table", qual, f"{ident}: {sorted(set(got.items()) ^ set(want_m2v.items()), key=str)[:4]}",
+                                   f"{ident}: the dumper table {got} is not member -> value for every member ({want_m2v})")
+                    if side == "loader" and d and all("m" in v for _, v in d):
+                        n_tables += 1
+                        got = {_et_key(v): k.get("r") for k, v in d}
+                        if got != want_m2v or len(d) != len(got):
+                            report("TABLE.exact-table", qual, f"{ident}: {sorted(set(got.items()) ^ set(want_m2v.items()), key=str)[:4]}",
+                                   f"{ident}: the loader table {[(k.get('r'), v['m']) for k, v in d]} is not value -> member for every member")
+    res.count("TABLE.records", n, 80)
+    res.count("TABLE.tables-compared", n_tables, 120)
+
 # ================================================================================================ C16: generic models (tier G)
 _G_IMPLICIT = {"T": "Any", "U": "Any", "V": "Any", "B": "Book", "C": "Union[str, bytes]", "N": "int", "ItemT": "AuxItem"}
 _G_LOADER = {"int": "int_strict_coercion_loader", "str": "str_strict_coercion_loader", "bool": "bool_strict_coercion_loader",
